@@ -271,6 +271,7 @@ func checkC14(c *core.Ctx) {
 			}
 		}
 	}
+	ruleReferenceReachesStore(c)
 }
 
 // ---------- C16 ----------
